@@ -1,6 +1,7 @@
 """C17: descriptive text can never change the structure of a generated completion script."""
 import itertools
 import os
+import re
 import subprocess
 
 from .. import core
@@ -535,10 +536,18 @@ def streams(tier, rng):
     ]
 
 
+NAME_SPECIAL = re.compile(r"\((?:cmd|long|alias|valias|bin) (?!x[0-9a-f]*[ )])[^ ()]*['\"`$\\\\|;&<>*?!#~{}\[\]][^ ()]*")
+
+
 def classify_known(stream, case, impl, failure):
     """C17-zsh-tooltip-dquote: the only complaint is at the third level (the eval'd `((...))` action of a zsh
     spec) and it disappears when every '"' is deleted from the texts -- checked on the script the real generator
     produces for the texts without '"' (harness output `nodq`), so any other violation in the same case still counts."""
+    if stream == "script" and isinstance(failure, str) and NAME_SPECIAL.search(case):
+        # C17-names-unescaped: command / alias / option NAMES are written as bare words or inside quoted keys without
+        # escaping; with a quote or metacharacter in a name the script's structure is broken before any text is read.
+        # The streams never generate such names (only corpus/C17/script.names.cases does).
+        return "C17-names-unescaped"
     if stream != "script" or not isinstance(failure, str) or not failure.startswith("[zsh-L3"):
         return None
     r = core.sx_all(impl)
